@@ -85,6 +85,16 @@ func (p *LeafPool) Leaf(t *rapid.T, o ExprOpts) model.Expr {
 	return model.Eq(c, vals[rapid.IntRange(0, len(vals)-1).Draw(t, "vi")])
 }
 
+// AllowEmptyName adds the empty string to the names of columns that occur in
+// no row (when that is the case).  Only for checks that hand expressions to the
+// library as objects: the text syntax cannot name such a column.
+func (p *LeafPool) AllowEmptyName() *LeafPool {
+	if !p.D.HasColumn("") {
+		p.Unknown = append(p.Unknown, "")
+	}
+	return p
+}
+
 // Expr draws an expression tree.
 func (p *LeafPool) Expr(t *rapid.T, o ExprOpts) model.Expr {
 	if o.MaxDepth == 0 {
@@ -127,14 +137,14 @@ func (p *LeafPool) Expr(t *rapid.T, o ExprOpts) model.Expr {
 		return model.Or(subs...)
 	case 0: // NOT chain
 		e := p.Leaf(t, o)
-		k := rapid.IntRange(1, 6).Draw(t, "nots")
+		k := rapid.SampledFrom([]int{1, 1, 2, 2, 3, 4, 5, 6, 6, 99, 100, 101, 150}).Draw(t, "nots")
 		for i := 0; i < k; i++ {
 			e = model.Not(e)
 		}
 		return e
 	case 1: // left-deep chain
 		e := p.Leaf(t, o)
-		k := rapid.SampledFrom([]int{2, 3, 5, 8, 13, 21, 40, 60, 100}).Draw(t, "chain")
+		k := rapid.SampledFrom([]int{2, 3, 5, 8, 13, 21, 40, 60, 99, 100, 101, 150, 300}).Draw(t, "chain")
 		for i := 0; i < k; i++ {
 			l := p.Leaf(t, o)
 			if rapid.Bool().Draw(t, "cop") {
